@@ -117,6 +117,23 @@ func runListX(dir, focus string, env *execEnv, caseStr string) (*Sx, []Violation
 	}
 	r.Add(sortedSx(xs)...)
 	var viols []Violation
+	// C11 at the output level: an entry whose structured form is the three full port ranges (and nothing by name)
+	// is the full set and is written `All Connections`
+	for _, ep := range ca.ExposedPeers() {
+		for _, x := range append(append([]connlist.XgressExposureData{}, ep.IngressExposure()...), ep.EgressExposure()...) {
+			c := x.PotentialConnectivity()
+			m := c.ProtocolsAndPortsMap()
+			full := len(m) == 3
+			for _, ranges := range m {
+				if len(ranges) != 1 || ranges[0].Start() != 1 || ranges[0].End() != 65535 {
+					full = false
+				}
+			}
+			if cs, ok := c.(*common.ConnectionSet); ok && full && len(cs.GetNamedPorts()) == 0 && fmt.Sprint(c) != "All Connections" {
+				viols = append(viols, Violation{Prop: "C11", Kind: "full-set-not-recognised-in-output", Detail: fmt.Sprintf("exposure entry of %s holds every port of every protocol and no port name, and is written %q", ep.ExposedPeer().String(), fmt.Sprint(c)), Case: caseStr})
+			}
+		}
+	}
 	viols = append(viols, checkWellFormed(conns, peers, caseStr)...)
 	// C06: the base connectivity is the one reported without the flag
 	if focus == "" {
@@ -145,7 +162,7 @@ func runListX(dir, focus string, env *execEnv, caseStr string) (*Sx, []Violation
 func init() {
 	families["exposure"] = family{
 		gen: func(r *Rng, id int, tier string) *Sx {
-			cfg := &genCfg{anp: false, banp: false, pods: true, twinPct: 20, collidePct: 30, repName: true, namedOnIPPct: 6, maxNP: 4, maxWl: 4}
+			cfg := &genCfg{anp: false, banp: false, pods: true, twinPct: 20, collidePct: 30, complementPct: 10, repName: true, namedOnIPPct: 6, maxNP: 4, maxWl: 4}
 			w := genWorld(r, cfg)
 			c := Ls(At("wcase"), Ai(int64(id)), w.Sx(), Ls(At("listx"), At("-")))
 			if r.P(15) {
